@@ -210,4 +210,177 @@ theorem crossPart_ok (c c1 : Cl) (cur : SubSt) (r : Int) (h n : Nat) (sub : Stri
         exact ⟨o, ho, hres.1, by rw [hp, ← hres.2]⟩
       · simp at hres
 
+/-! ### Reload -/
+
+def confSubs (conf : GConf) : List C02.Sub := conf.map fun p => { name := p.1, w := p.2 }
+
+def NamesNodup (c : Cl) : Prop := (c.subs.map (·.name)).Nodup
+
+theorem find?_of_nodup_keys (conf : GConf) (hnd : (conf.map (·.1)).Nodup) (p : String × Int) (hp : p ∈ conf) :
+    conf.find? (·.1 == p.1) = some p := by
+  induction conf with
+  | nil => simp at hp
+  | cons q t ih =>
+    rw [List.map_cons] at hnd
+    obtain ⟨hq, ht⟩ := List.nodup_cons.mp hnd
+    rcases List.mem_cons.mp hp with rfl | hp'
+    · simp
+    · have hne : q.1 ≠ p.1 := fun h => hq (h ▸ List.mem_map.mpr ⟨p, hp', rfl⟩)
+      rw [List.find?_cons]
+      have : (q.1 == p.1) = false := by simpa using hne
+      simp only [this]
+      exact ih ht hp'
+
+theorem lookupW_some_iff (conf : GConf) (hnd : (conf.map (·.1)).Nodup) (n : String) (w : Int) :
+    lookupW conf n = some w ↔ (n, w) ∈ conf := by
+  unfold lookupW
+  constructor
+  · intro h
+    obtain ⟨p, hp, hw⟩ := Option.map_eq_some_iff.mp h
+    have hm := List.mem_of_find?_eq_some hp
+    have hk := List.find?_some hp
+    have : p = (n, w) := by
+      obtain ⟨a, b⟩ := p
+      simp at hk hw; subst hk; subst hw; rfl
+    rw [← this]; exact hm
+  · intro h
+    have := find?_of_nodup_keys conf hnd (n, w) h
+    simp only [] at this
+    rw [this]; rfl
+
+theorem mem_kept (subs : List SubSt) (conf : GConf) (x : SubSt) :
+    x ∈ kept subs conf ↔ ∃ s ∈ subs, ∃ w, lookupW conf s.name = some w ∧ x = { s with w := w } := by
+  unfold kept
+  rw [List.mem_filterMap]
+  constructor
+  · rintro ⟨s, hs, h⟩
+    obtain ⟨w, hw, rfl⟩ := Option.map_eq_some_iff.mp h
+    exact ⟨s, hs, w, hw, rfl⟩
+  · rintro ⟨s, hs, w, hw, rfl⟩
+    exact ⟨s, hs, by simp [hw]⟩
+
+theorem mem_added (subs : List SubSt) (conf : GConf) (x : SubSt) :
+    x ∈ added subs conf ↔ ∃ p ∈ conf, (∀ s ∈ subs, s.name ≠ p.1) ∧ x = { name := p.1, w := p.2, bs := [] } := by
+  unfold added
+  simp only [List.mem_map, List.mem_filter, Bool.not_eq_true', List.any_eq_false, beq_iff_eq]
+  constructor
+  · rintro ⟨p, ⟨hp, hn⟩, rfl⟩
+    exact ⟨p, hp, fun s hs => by simpa using hn s hs, rfl⟩
+  · rintro ⟨p, hp, hn, rfl⟩
+    exact ⟨p, ⟨hp, fun s hs => by simpa using hn s hs⟩, rfl⟩
+
+theorem kept_names_nodup (subs : List SubSt) (conf : GConf) (h : (subs.map (·.name)).Nodup) :
+    ((kept subs conf).map (·.name)).Nodup := by
+  induction subs with
+  | nil => simp [kept]
+  | cons s t ih =>
+    rw [List.map_cons] at h
+    obtain ⟨hs, ht⟩ := List.nodup_cons.mp h
+    have hk : kept (s :: t) conf = (match lookupW conf s.name with
+        | some w => [{ s with w := w }] | none => []) ++ kept t conf := by
+      unfold kept
+      rw [List.filterMap_cons]
+      cases lookupW conf s.name <;> simp
+    rw [hk]
+    cases hl : lookupW conf s.name with
+    | none => simpa using ih ht
+    | some w =>
+      simp only [List.singleton_append, List.map_cons]
+      refine List.nodup_cons.mpr ⟨?_, ih ht⟩
+      intro hm
+      obtain ⟨x, hx, hxn⟩ := List.mem_map.mp hm
+      obtain ⟨s', hs', w', _, rfl⟩ := (mem_kept t conf x).mp hx
+      exact hs (List.mem_map.mpr ⟨s', hs', by simpa using hxn⟩)
+
+theorem reload_list_names_nodup (subs : List SubSt) (conf : GConf)
+    (hs : (subs.map (·.name)).Nodup) (hnd : (conf.map (·.1)).Nodup) :
+    ((kept subs conf ++ added subs conf).map (·.name)).Nodup := by
+  rw [List.map_append]
+  refine List.nodup_append.mpr ⟨kept_names_nodup subs conf hs, ?_, ?_⟩
+  · -- added: a filtered sub-list of the conf keys
+    unfold added
+    rw [List.map_map]
+    have : ((fun s : SubSt => s.name) ∘ fun p : String × Int => ({ name := p.1, w := p.2, bs := [] } : SubSt)) = (·.1) := rfl
+    rw [this]
+    exact List.Nodup.sublist (List.Sublist.map _ List.filter_sublist) hnd
+  · intro a ha b hb hab
+    obtain ⟨x, hx, rfl⟩ := List.mem_map.mp ha
+    obtain ⟨y, hy, rfl⟩ := List.mem_map.mp hb
+    obtain ⟨s, hs', w, _, rfl⟩ := (mem_kept subs conf x).mp hx
+    obtain ⟨p, _, hn, rfl⟩ := (mem_added subs conf y).mp hy
+    exact hn s hs' hab
+
+theorem mem_toSubs_reload (subs : List SubSt) (conf : GConf) (hnd : (conf.map (·.1)).Nodup) (x : C02.Sub) :
+    x ∈ toSubs (kept subs conf ++ added subs conf) ↔ x ∈ confSubs conf := by
+  unfold toSubs confSubs
+  simp only [List.mem_map, List.mem_append]
+  constructor
+  · rintro ⟨y, hy | hy, rfl⟩
+    · obtain ⟨s, _, w, hw, rfl⟩ := (mem_kept subs conf y).mp hy
+      exact ⟨(s.name, w), (lookupW_some_iff conf hnd _ _).mp hw, rfl⟩
+    · obtain ⟨p, hp, _, rfl⟩ := (mem_added subs conf y).mp hy
+      exact ⟨p, hp, rfl⟩
+  · rintro ⟨p, hp, rfl⟩
+    by_cases hex : ∃ s ∈ subs, s.name = p.1
+    · obtain ⟨s, hs, hn⟩ := hex
+      refine ⟨{ s with w := p.2 }, Or.inl ((mem_kept subs conf _).mpr ⟨s, hs, p.2, ?_, rfl⟩), by simp [hn]⟩
+      rw [hn]; exact (lookupW_some_iff conf hnd _ _).mpr hp
+    · refine ⟨{ name := p.1, w := p.2, bs := [] }, Or.inr ((mem_added subs conf _).mpr ⟨p, hp, ?_, rfl⟩), rfl⟩
+      intro s hs hn; exact hex ⟨s, hs, hn⟩
+
+theorem nodup_of_nodup_map {α β : Type} (f : α → β) (l : List α) (h : (l.map f).Nodup) : l.Nodup := by
+  induction l with
+  | nil => simp
+  | cons a t ih =>
+    rw [List.map_cons] at h
+    obtain ⟨ha, ht⟩ := List.nodup_cons.mp h
+    exact List.nodup_cons.mpr ⟨fun hm => ha (List.mem_map.mpr ⟨a, hm, rfl⟩), ih ht⟩
+
+theorem ins_map_comm {α β : Type} (k : α → String) (k' : β → String) (f : α → β) (hk : ∀ x, k' (f x) = k x)
+    (x : α) (l : List α) : (C02.ins k x l).map f = C02.ins k' (f x) (l.map f) := by
+  induction l with
+  | nil => simp [C02.ins]
+  | cons y ys ih =>
+    unfold C02.ins
+    simp only [List.map_cons, hk]
+    split
+    · simp
+    · simp [ih]
+
+theorem isort_map_comm {α β : Type} (k : α → String) (k' : β → String) (f : α → β) (hk : ∀ x, k' (f x) = k x)
+    (l : List α) : (C02.isort k l).map f = C02.isort k' (l.map f) := by
+  induction l with
+  | nil => simp [C02.isort]
+  | cons x xs ih =>
+    have e1 : C02.isort k (x :: xs) = C02.ins k x (C02.isort k xs) := rfl
+    have e2 : C02.isort k' ((x :: xs).map f) = C02.ins k' (f x) (C02.isort k' (xs.map f)) := rfl
+    rw [e1, e2, ins_map_comm k k' f hk, ih]
+
+theorem toSubs_names (l : List SubSt) : (toSubs l).map (·.name) = l.map (·.name) := by
+  simp [toSubs, List.map_map, Function.comp_def]
+
+theorem confSubs_names (conf : GConf) : (confSubs conf).map (·.name) = conf.map (·.1) := by
+  simp [confSubs, List.map_map, Function.comp_def]
+
+/-- **history independence of the list**: whatever the old sub-cluster list was, the (name, weight) list
+    installed by a reload is the sorted configuration -/
+theorem reload_subs_eq (subs : List SubSt) (conf : GConf)
+    (hs : (subs.map (·.name)).Nodup) (hnd : (conf.map (·.1)).Nodup) :
+    toSubs (C02.isort (·.name) (kept subs conf ++ added subs conf)) = C02.isort (·.name) (confSubs conf) := by
+  have hcomm : toSubs (C02.isort (·.name) (kept subs conf ++ added subs conf)) =
+      C02.isort (·.name) (toSubs (kept subs conf ++ added subs conf)) :=
+    isort_map_comm (fun s : SubSt => s.name) (fun s : C02.Sub => s.name)
+      (fun s : SubSt => ({ name := s.name, w := s.w } : C02.Sub)) (fun _ => rfl) _
+  rw [hcomm]
+  have hn1 : ((toSubs (kept subs conf ++ added subs conf)).map (·.name)).Nodup := by
+    rw [toSubs_names]; exact reload_list_names_nodup subs conf hs hnd
+  have hn2 : ((confSubs conf).map (·.name)).Nodup := by rw [confSubs_names]; exact hnd
+  have hperm : (toSubs (kept subs conf ++ added subs conf)).Perm (confSubs conf) :=
+    (List.perm_ext_iff_of_nodup (nodup_of_nodup_map _ _ hn1) (nodup_of_nodup_map _ _ hn2)).mpr
+      (mem_toSubs_reload subs conf hnd)
+  apply C02.sorted_unique (·.name) _ _
+    ((C02.isort_perm _ _).trans (hperm.trans (C02.isort_perm _ _).symm))
+    (C02.isort_sorted _ _) (C02.isort_sorted _ _)
+  exact ((C02.isort_perm _ _).map _).nodup_iff.mpr hn1
+
 end BfeVerif.C03
